@@ -12,6 +12,8 @@ type stiffCase struct {
 type stiffOut struct {
 	L, C, S string
 	K       [][]string
+	KRev    [][]string // the same sub-span given in the other order
+	KAgain  [][]string // the same sub-span asked for once more at the end
 	Panic   string `json:",omitempty"`
 }
 
@@ -44,20 +46,37 @@ func cmdStiff() {
 				}
 			}()
 			bar := makeBar("b", pf(c.X1), pf(c.Y1), pf(c.X2), pf(c.Y2), pf(c.E), pf(c.A), pf(c.I))
-			k := bar.StiffnessGlobalMat(nums.MakeTParam(pf(c.T1)), nums.MakeTParam(pf(c.T2)))
-			rows := make([][]string, k.Rows())
-			for i := 0; i < k.Rows(); i++ {
-				rows[i] = make([]string, k.Cols())
-				for j := 0; j < k.Cols(); j++ {
-					rows[i][j] = fs(k.Value(i, j))
-				}
-			}
+			t1, t2 := nums.MakeTParam(pf(c.T1)), nums.MakeTParam(pf(c.T2))
+			// histories: the matrix of this sub-span is asked for, then the same bar is asked for other
+			// sub-spans (and for this one in the other order), and only then is the first matrix read
+			k := bar.StiffnessGlobalMat(t1, t2)
+			kRev := bar.StiffnessGlobalMat(t2, t1)
+			revRows := matRows(kRev)
+			bar.StiffnessGlobalMat(nums.MinT, nums.MaxT)
+			bar.StiffnessGlobalMat(nums.MakeTParam(0.9), nums.MaxT)
+			rows := matRows(k)
 			outs[n] = stiffOut{
-				L: fs(bar.Length()), C: fs(bar.RefFrame().Cos()), S: fs(bar.RefFrame().Sin()), K: rows,
+				L: fs(bar.Length()), C: fs(bar.RefFrame().Cos()), S: fs(bar.RefFrame().Sin()), K: rows, KRev: revRows,
+				KAgain: matRows(bar.StiffnessGlobalMat(t1, t2)),
 			}
 		}()
 	}
 	writeJSON(outs)
+}
+
+func matRows(k interface {
+	Rows() int
+	Cols() int
+	Value(int, int) float64
+}) [][]string {
+	rows := make([][]string, k.Rows())
+	for i := 0; i < k.Rows(); i++ {
+		rows[i] = make([]string, k.Cols())
+		for j := 0; j < k.Cols(); j++ {
+			rows[i][j] = fs(k.Value(i, j))
+		}
+	}
+	return rows
 }
 
 func toString(r interface{}) string {
